@@ -767,6 +767,8 @@ func (t *tr) fn(fd *ast.FuncDecl) string {
 			f.names = append(f.names, nameRec{f.rootCanon[obj], n.Name, leanName(n.Name), t.fset.Position(n.Pos()).Line})
 			if _, isSlice := obj.Type().Underlying().(*types.Slice); isSlice && k == kBytes {
 				sliceParams = append(sliceParams, n)
+			} else if _, isPtr := obj.Type().Underlying().(*types.Pointer); isPtr && k == kBytes {
+				sliceParams = append(sliceParams, n) // pointer to a byte array: writes through it are visible to the caller
 			}
 			if k != kAbs {
 				continue
